@@ -585,7 +585,9 @@ fn translate_cases<C: CellType>(seed: u64, n: usize, sem: &mut Tally, shape: &mu
                     sem.skipped += 1;
                     continue;
                 }
-                let r1 = run_bc(&bc.insts, &mut s1, 4000);
+                // every IR step costs at most (number of bytecode instructions) bytecode steps: a
+                // budget the bytecode cannot exhaust while the IR run stayed within its own
+                let r1 = run_bc(&bc.insts, &mut s1, 400 * (bc.insts.len() + 4) + 1000);
                 // temporaries are not observable
                 s1.temps = s0.temps.clone();
                 if fused || !s0.out.is_empty() {
